@@ -336,3 +336,5 @@ func opWindow(ops []*OpRec, kind string) (inv, ret int, ok bool) {
 	}
 	return 0, 0, false
 }
+
+func sprintf(format string, a ...interface{}) string { return fmt.Sprintf(format, a...) }
